@@ -113,6 +113,11 @@ def pointwise(ctx, c, nev):
             ctx.disagree("C01.norm." + nme, {"cfg": list(c), "model": m[nme], "independent": val})
     # ---- events
     u = rng.uniform(0.02, 0.98, (4, nev))
+    # near-limb stream: the weight has an integrable u4^(-1/2) singularity at the limb (u4 -> 0); a share of the events is
+    # placed there (log-uniform u4) so that the weight identity is also checked where cos(theta_NV) is small
+    nlimb = nev // 3
+    u[3, :nlimb] = 10 ** rng.uniform(-12.0, -2.0, nlimb)
+    ctx.count("pointwise:near-limb", nlimb)
     g.throw(u)
     arr = ev_arrays(g).copy()
     mask = np.asarray(g.event_mask, dtype=bool).copy()
@@ -127,9 +132,9 @@ def pointwise(ctx, c, nev):
     out = run_driver_sharded(lines)
     # finite-difference Jacobian of the REAL sampling map (diagonal: theta_Tr(u1), phi_Tr(u2), phi_S(u3), theta_S(u4))
     h = 1e-6
-    g.throw(u + h)
+    g.throw(np.clip(u + h, 0.0, 1.0))
     up = ev_arrays(g).copy()
-    g.throw(u - h)
+    g.throw(np.clip(u - h, 0.0, 1.0))
     um = ev_arrays(g).copy()
     jac = np.abs((up[:, 0] - um[:, 0]) * (up[:, 2] - um[:, 2]) * (up[:, 3] - um[:, 3]) * (up[:, 5] - um[:, 5])) / (2 * h) ** 4
     for i in range(nev):
@@ -178,7 +183,7 @@ def pointwise(ctx, c, nev):
             ctx.violation("RegionGeom.mcintegral", "weight-vs-integrand-over-density",
                           f"weight*mcnorm*prod(pdf) = {float(w[i]*g.mcnorm*dens)!r} but integrand R^2 sin(thS) sin(thTr) cos(thTrN) = {float(integrand)!r}", case)
         # oracle 2: integrand x Jacobian of the real sampling map (finite differences); skip if a neighbour changed validity
-        if abs(w[i] * g.mcnorm - integrand * jac[i]) > 2e-5 * abs(integrand * jac[i]) + 1e-12:
+        if u[3, i] > 0.01 and abs(w[i] * g.mcnorm - integrand * jac[i]) > 2e-5 * abs(integrand * jac[i]) + 1e-12:
             ctx.violation("RegionGeom.mcintegral", "weight-vs-integrand-times-jacobian",
                           f"weight*mcnorm = {float(w[i]*g.mcnorm)!r} but integrand x |d(thTr,phTr,phS,thS)/du| = {float(integrand*jac[i])!r}", case)
     # ---- batch integral, with and without a cutting cosine; exact tie on the cut
